@@ -17,8 +17,6 @@
 package memidm
 
 import (
-	"sync"
-
 	"github.com/avfs/avfs"
 )
 
@@ -40,8 +38,8 @@ type MemIdm struct {
 	usersById       usersById    // usersById is users map by Id.
 	maxGid          int          // maxGid is the current maximum Gid.
 	maxUid          int          // maxUid is the current maximum Uid.
-	grpMu           sync.RWMutex // grpMu is the groups mutex.
-	usrMu           sync.RWMutex // usrMu is the users mutex.
+	grpMu           verifRWMutex // grpMu is the groups mutex.
+	usrMu           verifRWMutex // usrMu is the users mutex.
 	avfs.FeaturesFn              // FeaturesFn provides features functions to a file system or an identity manager.
 	avfs.OSTypeFn                // OSTypeFn provides OS type functions to a file system or an identity manager.
 }
